@@ -448,8 +448,42 @@ Qed.
 
 (* non-vacuity of the side conditions *)
 Example side_conditions_satisfiable :
-  no_clashb ["Constant"; "v"; "fori_body"; "loop_iter"; "a_"; "a__"] = true /  slash_freeb ["Constant"; "v"; "fori_body"] = true /\ cross_okb ["v"; "in"] ["Constant"; "Not"] = true.
+  (no_clashb ["Constant"; "v"; "fori_body"; "loop_iter"; "a_"; "a__"] = true) /\
+  (slash_freeb ["Constant"; "v"; "fori_body"] = true) /\ (cross_okb ["v"; "in0"] ["Constant"; "Not"] = true).
 Proof. vm_compute. auto. Qed.
 Example scoped_example :
   scoped_ctx_name [("cond_then", 0); ("fori_body", 2)] "x" 3 = "fori_body_2/cond_then_0/x_3".
+Proof. vm_compute. reflexivity. Qed.
+
+(* ------------------------------------------------------------------ executable image of a tree of contexts, used by
+   the differential tie of harness/c03.py against the REAL IRContext / IRBuilder / make_subgraph_context:
+   ECall b = ctx.fresh_name(b), EBld b = ctx.builder.fresh_name(b),
+   ESpawn p body = child = make_subgraph_context(ctx, prefix=p); run body on child.  Names in call order. *)
+Inductive ev := ECall (b : string) | EBld (b : string) | ESpawn (p : string) (body : list ev).
+
+Fixpoint sim1 (e : ev) (qc qb : string -> string) (cc cb : counters) {struct e} : list string * (counters * counters) :=
+  match e with
+  | ECall b => let nc := ctx_fresh cc (qc b) in ([fst nc], (snd nc, cb))
+  | EBld b => let nb := bld_fresh cb (qb b) in ([fst nb], (cc, snd nb))
+  | ESpawn p body =>
+      let nc := ctx_fresh cc (qc p) in
+      let qc' := child_ctx_qualify (fst nc) in
+      let qb' := child_bld_qualify (fst nc) in
+      ((fix go (l : list ev) (c1 c2 : counters) {struct l} : list string :=
+          match l with
+          | [] => []
+          | x :: r => let res := sim1 x qc' qb' c1 c2 in fst res ++ go r (fst (snd res)) (snd (snd res))
+          end) body [] [],
+       (snd nc, cb))
+  end.
+Fixpoint sim (qc qb : string -> string) (cc cb : counters) (evs : list ev) : list string :=
+  match evs with
+  | [] => []
+  | x :: r => let res := sim1 x qc qb cc cb in fst res ++ sim qc qb (fst (snd res)) (snd (snd res)) r
+  end.
+Definition sim_root (evs : list ev) : list string := sim (fun b => b) (fun b => b) [] [] evs.
+
+Example sim_example :
+  sim_root [ECall "v"; ESpawn "fori_body" [ECall "x"; EBld "Add"; ESpawn "cond" [ECall "y_"]]; ECall "v"; ESpawn "fori_body" [ECall "x"]]
+  = ["v_0"; "fori_body_0/x_0"; "fori_body_0/Add_0"; "fori_body_0/cond_0/y_0"; "v_1"; "fori_body_1/x_0"].
 Proof. vm_compute. reflexivity. Qed.
